@@ -16,6 +16,7 @@ import (
 	"os"
 	"runtime/debug"
 	"strings"
+	"time"
 
 	"github.com/santhosh-tekuri/raft"
 	"verif/internal/harness"
@@ -214,6 +215,45 @@ func f19(driver string) int {
 	return 0
 }
 
+// pairing: request/response pairing on a pooled connection. Replies carry no request id: they are paired with requests by
+// their position on the connection, so a connection on which an RPC was given up (deadline) must never be used again —
+// its late reply would be read as the answer to the next request (a vote granted for term T counted in the election of
+// term T+1: C01; a success of an older append credited to a newer one: C06). The real connPool.doRPC over the in-memory
+// network of the conn hooks, a listener that stamps its replies with a counter, one reply held beyond the deadline.
+func pairing() int {
+	nw := raft.NewVerifNet()
+	nw.Buffered = true
+	defer nw.Close()
+	l := nw.StartListener("a2", 7, 2)
+	d := nw.NewDialer(7, 1, false)
+	d.UpdateConfig(map[uint64]string{2: "a2"})
+	l.SetTerm(1)
+	cls, t := d.DoRPCTerm(2, 1, 2*time.Second)
+	fmt.Printf("vote RPC 1 (warm-up, pools the connection): %s, reply stamped %d\n", cls, t)
+	if cls != "ok" || t != 1 {
+		fmt.Println("scenario pairing: setup failed")
+		return 2
+	}
+	l.SetTerm(2)
+	l.SlowNext(700 * time.Millisecond)
+	cls, t = d.DoRPCTerm(2, 1, 150*time.Millisecond)
+	fmt.Printf("vote RPC 2 (the peer is busy, the reply comes after the deadline): %s\n", cls)
+	if cls != "timeout" {
+		fmt.Println("scenario pairing: setup failed (no timeout)")
+		return 2
+	}
+	time.Sleep(900 * time.Millisecond) // the late reply (stamp 2) is on the wire now
+	l.SetTerm(3)
+	cls, t = d.DoRPCTerm(2, 1, 2*time.Second)
+	fmt.Printf("vote RPC 3: %s, reply stamped %d (expected 3), connections pooled for the peer now: %d\n", cls, t, d.PoolLen(2))
+	if cls == "ok" && t != 3 {
+		fmt.Printf("scenario pairing: REPRODUCED — the reply to the request that had timed out (stamp %d) was read as the answer to the NEXT request on the same pooled connection: a connection on which an RPC was given up went back to the pool\n", t)
+		return 1
+	}
+	fmt.Println("scenario pairing: not reproduced — the connection of the timed-out RPC was not used again")
+	return 0
+}
+
 func main() {
 	driver := flag.String("driver", "/verif/lean/.lake/build/bin/driver", "model driver")
 	which := flag.String("case", "F19", "scenario")
@@ -222,6 +262,8 @@ func main() {
 	switch *which {
 	case "F19":
 		os.Exit(f19(*driver))
+	case "pairing":
+		os.Exit(pairing())
 	}
 	fmt.Println("unknown case")
 	os.Exit(2)
